@@ -38,6 +38,7 @@ type LoopSpec struct {
 	Invs      []*Clause
 	Decreases *Clause
 	Sets      []*GhostSet // ghost updates applied on every back edge
+	BreakSets []*GhostSet // ghost updates applied on every edge that leaves the loop from its body (break, not the head's exit)
 }
 
 type GhostSet struct {
@@ -100,6 +101,7 @@ type GhostDecl struct {
 }
 
 type AtomicRely struct {
+	Props   []string
 	Field   string
 	PkgPath string
 	From    int
@@ -263,9 +265,10 @@ func (sp *Specs) loadFile(path, pkgPath string) error {
 			}
 		case "atomic":
 			// `atomic T.f changes-only-from <n>`: rely/guarantee for a field accessed with sync/atomic
-			f := strings.Fields(rest)
+			_, aprops, arest := parseLabel(rest)
+			f := strings.Fields(arest)
 			if len(f) != 3 || f[1] != "changes-only-from" {
-				return fail(fmt.Errorf("atomic: want `T.f changes-only-from <n>`"))
+				return fail(fmt.Errorf("atomic: want `[Cxx:label] T.f changes-only-from <n>`"))
 			}
 			n, err := strconv.Atoi(f[2])
 			if err != nil {
@@ -274,7 +277,7 @@ func (sp *Specs) loadFile(path, pkgPath string) error {
 			if sp.Atomics == nil {
 				sp.Atomics = map[string]*AtomicRely{}
 			}
-			sp.Atomics[pkgPath+"."+f[0]] = &AtomicRely{Field: f[0], PkgPath: pkgPath, From: n, Where: where}
+			sp.Atomics[pkgPath+"."+f[0]] = &AtomicRely{Field: f[0], PkgPath: pkgPath, From: n, Where: where, Props: aprops}
 			sp.Scan = append(sp.Scan, fmt.Sprintf("rely: other goroutines change %s only when it holds %d (guaranteed by every atomic write to it in the module) (%s)", f[0], n, where))
 		case "relemma":
 			lab, props, r2 := parseLabel(rest)
@@ -417,15 +420,19 @@ func (sp *Specs) loadFile(path, pkgPath string) error {
 					ls = &LoopSpec{}
 					cur.Loops[k] = ls
 				}
-				if parts[1] == "backedge" {
+				if parts[1] == "backedge" || parts[1] == "break" {
 					if !strings.HasPrefix(strings.TrimSpace(parts[2]), "set ") {
-						return fail(fmt.Errorf("loop k backedge set g(args) = e"))
+						return fail(fmt.Errorf("loop k backedge|break set g(args) = e"))
 					}
 					gs, err := parseGhostSet(strings.TrimSpace(strings.TrimSpace(parts[2])[4:]))
 					if err != nil {
 						return fail(err)
 					}
-					ls.Sets = append(ls.Sets, gs)
+					if parts[1] == "break" {
+						ls.BreakSets = append(ls.BreakSets, gs)
+					} else {
+						ls.Sets = append(ls.Sets, gs)
+					}
 					continue
 				}
 				c, err := mkClause(strings.TrimSpace(parts[2]))
